@@ -1,9 +1,6 @@
 package harness
 
 import (
-	"fmt"
-	"sort"
-	"strings"
 	"time"
 )
 
@@ -316,42 +313,7 @@ func (o *c04) Step(r *StepRec) []Violation {
 	if ds := post.Supply - pre.Supply; ds != e.Supply {
 		o.fail("c04:burn:"+a.Kind, "supply moved by %d, expected %d", ds, e.Supply)
 	}
-	// 3. slash events match as a multiset of (request, provider, amount-multiset per provider)
-	var gotEv, wantEv []string
-	for _, ev := range r.Events {
-		if ev.Type != "service_slash" {
-			continue
-		}
-		var rq, pv, amt string
-		for _, at := range ev.Attributes {
-			switch string(at.Key) {
-			case "request_id":
-				rq = strings.ToLower(string(at.Value))
-			case "provider":
-				pv = string(at.Value)
-			case "slashed_coins":
-				amt = string(at.Value)
-			}
-		}
-		if amt == "" {
-			continue // a slash of nothing: the property does not say whether it is announced
-		}
-		gotEv = append(gotEv, rq+"|"+pv)
-		gotEv = append(gotEv, "amt|"+pv+"|"+amt)
-	}
-	for _, s := range e.Slashes {
-		if s.Amount == 0 {
-			continue
-		}
-		pv := addr(s.Provider).String()
-		wantEv = append(wantEv, s.ReqID+"|"+pv)
-		wantEv = append(wantEv, "amt|"+pv+"|"+fmt.Sprintf("%dstake", s.Amount))
-	}
-	sort.Strings(gotEv)
-	sort.Strings(wantEv)
-	if strings.Join(gotEv, ",") != strings.Join(wantEv, ",") {
-		o.fail("c04:events:"+a.Kind, "slash events %v, expected %v", gotEv, wantEv)
-	}
+	// (slash events are deliberately not compared: the property speaks of deposits and supply only)
 	if o.w.cfg.Slash == "0" || o.w.cfg.Slash == "1" {
 		if len(e.Slashes) > 0 {
 			o.hit("slash_fraction_extreme")
